@@ -429,7 +429,27 @@ func driveQuadkey(t *Tracer, r Rng, n int) {
 			ids := []BID{}
 			for len(ids) < k {
 				var b BID
-				if len(ids) > 0 && r.Chance(0.4) { // repeated / nested entries
+				if len(ids) > 0 && r.Chance(0.2) {
+					// a twin differing in single bits: one horizontal bit (x, y or both) and one low vertical
+					// bit - the pairs on which a packed / xor-ed (quadkey, index) key collides
+					p := ids[r.Intn(len(ids))]
+					b = p
+					if p.H > 0 {
+						a := uint(r.In(0, p.H-1))
+						switch r.Intn(3) {
+						case 0:
+							b.X ^= 1 << a
+						case 1:
+							b.Y ^= 1 << a
+						default:
+							b.X ^= 1 << a
+							b.Y ^= 1 << a
+						}
+					}
+					if p.V > 0 && r.Chance(0.8) {
+						b.F ^= 1 << uint(r.In(0, minI(p.V-1, 7)))
+					}
+				} else if len(ids) > 0 && r.Chance(0.4) { // repeated / nested entries
 					p := ids[r.Intn(len(ids))]
 					b = p
 					if r.Chance(0.5) && p.H > 1 && !sp {
